@@ -142,7 +142,8 @@ class Ctx:
         self.log("built %s in %.1fs" % (",".join(pkgs), time.time() - t))
 
     def bin(self, name):
-        return os.path.join(HARNESS, "target", "release", name)
+        tgt = os.environ.get("CARGO_TARGET_DIR") or os.path.join(HARNESS, "target")
+        return os.path.join(tgt, "release", name)
 
     def harness(self, binname, args, timeout=1800, env=None, stdin=None, ok_codes=(0,)):
         e = {"VERIF_SEED": str(self.seed), "VERIF_TIER": self.tier}
